@@ -121,6 +121,50 @@ theorem later_writes_report_closed (r : Bool) (htop : ∀ th ∈ threads, ∀ a 
   have hc2 := closed_is_forever r c1 c2 later h2 hc
   exact (write_on_closed_reports_closed r c2 c3 t a rest ha hc2 hth hs).1
 
+/-! ### every write error closes the connection -/
+
+/-- `closeOnWriteErr`: whatever the class of the error (generic, io.ErrClosedPipe, EPIPE, ECONNRESET,
+    net.ErrClosed, timeout), a failing flush on an open connection records the error for the caller and
+    calls `Close()` -/
+theorem write_error_closes_every_class (r : Bool) (cls : ErrClass) (c : Conn) (t : Nat) (rep : Bool)
+    (hf : c.failing = some cls) (hb : c.buffered = true) :
+    effect r c t (.netFlush rep) =
+      some ({ c with werr := true, results := record c rep t false .other }, [.api (.close true) false]) := by
+  simp [effect, hf, hb]
+
+/-- in every terminal state of every schedule in which any write/flush hit an error (of any class), the
+    teardown ran exactly once, the context is cancelled and the net.Conn closed — also when no other close
+    trigger exists (read loop parked, nobody calls `Close`) -/
+theorem write_error_leads_to_teardown (r : Bool) (htop : ∀ th ∈ threads, ∀ a ∈ th, topLevel a = true)
+    (sched : List Nat) (c' : Conn) (h : exec r (mkConn handlers active threads) sched = some c')
+    (hterm : terminal c' = true) (hw : c'.werr = true) :
+    c'.disc.length + c'.skipped = 1 ∧ c'.once = .done ∧ c'.cancelled = true ∧ c'.netClosed = true := by
+  have wi0 : WerrInv (mkConn handlers active threads) := fun _ => ⟨rfl, fun hw0 => by simp [mkConn] at hw0⟩
+  have ⟨_, wi⟩ := exec_inv_werr h (inv_mkConn handlers active threads htop) wi0
+  have hne : c'.once ≠ .fresh := by
+    intro hf
+    obtain ⟨t, st, a, hst, ha, _⟩ := (wi hf).2 hw
+    have := (terminal_iff c').1 hterm st (List.mem_of_getElem? hst)
+    subst this; simp at ha
+  exact teardown_exactly_once handlers active threads r htop sched c' h hterm hne
+
+/-- with a session handler installed: `Disconnected()` exactly once after any write error -/
+theorem write_error_disconnects_exactly_once (r : Bool) (htop : ∀ th ∈ threads, ∀ a ∈ th, topLevel a = true)
+    (hact : active.isSome = true)
+    (sched : List Nat) (c' : Conn) (h : exec r (mkConn handlers active threads) sched = some c')
+    (hterm : terminal c' = true) (hw : c'.werr = true) : c'.disc.length = 1 := by
+  have h1 := (write_error_leads_to_teardown handlers active threads r htop sched c' h hterm hw).1
+  have := exec_induct r (fun x => x.active.isSome = true ∧ x.skipped = 0)
+    (fun _ _ _ hp hs => step_active hs hp) sched _ c' ⟨hact, rfl⟩ h
+  omega
+
+/-- non-vacuity: read side parked (no read loop), the only goroutine writes on a connection whose peer
+    reset it: the write fails, the teardown runs once, the next write reports ErrClosedConn -/
+example : (match exec true (mkConn [⟨[], []⟩] (some 0) [[.api (.failNet .connReset) true, .api .writeFlush true, .api .writeFlush true]])
+      [0, 0, 0, 0, 0, 0, 0, 0, 0, 0] with
+    | some c => terminal c && c.werr && c.disc == [0] && c.cancelled
+        && c.results.map (·.2.2) == [.other, .closed] | none => false) = true := by decide
+
 /-! ### a handler panic is contained -/
 
 theorem panic_contained (c c' : Conn) (sched : List Nat) (h : exec true c sched = some c')
@@ -172,7 +216,7 @@ theorem flush_in_disconnected_deadlocks :
 
 /-- the guard used by `serverConnection.disconnect0` (`if !Closed(c) { CloseUnknown(c) }`) and every
     checked write are fine inside `Disconnected()` -/
-example : handlersSafe [⟨[.close true], [.guardedClose, .writeFlush, .buffer, .closeWith, .setHandler 0, .failNet]⟩] = true := by
+example : handlersSafe [⟨[.close true], [.guardedClose, .writeFlush, .buffer, .closeWith, .setHandler 0, .failNet .connReset]⟩] = true := by
   decide
 
 /-! ### tie to the source: call sequences regenerated from connection.go / server.go -/
@@ -202,6 +246,16 @@ theorem flush_error_path :
     has writeCalls "c.closeOnWriteErr" = true ∧ has bufferPacketCalls "c.closeOnWriteErr" = true ∧
     has bufferPayloadCalls "c.closeOnWriteErr" = true ∧ before writePacketCalls "c.BufferPacket" "c.Flush" = true := by
   decide
+
+open Gate.Gen.C44 in
+/-- `closeOnWriteErr` reaches `c.Close()` on every path with a non-nil error: the only `return` in front of it
+    is the `err == nil` guard, and every classification of the error (`errors.Is` ErrClosedConn, `errors.As`
+    *net.OpError, `errs.IsConnClosedErr`) comes after it — the class only decides about logging -/
+theorem closeOnWriteErr_closes_before_classifying :
+    closeOnWriteErrCalls.take 2 = ["return", "c.Close"] ∧
+    before closeOnWriteErrCalls "c.Close" "errors.Is" = true ∧ before closeOnWriteErrCalls "c.Close" "errors.As" = true ∧
+    before closeOnWriteErrCalls "c.Close" "errs.IsConnClosedErr" = true ∧
+    (closeOnWriteErrCalls.filter (· == "c.Close")).length = 1 := by decide
 
 open Gate.Gen.C44 in
 /-- `CloseWith`: closed check, mark known, write the packet, and (deferred) `Close` -/
